@@ -49,7 +49,7 @@ Lemma step_lookup s o k :
   alookup k (entries (fst (step s o))) =
   acc_upd k (alookup k (entries s)) (o, snd (step s o)).
 Proof.
-  destruct o as [n|k' e valid tie|k'|]; cbn; try reflexivity.
+  destruct o as [n|k' e valid tie|k'| |h]; cbn; try reflexivity.
   destruct valid; cbn; [|reflexivity].
   destruct (alookup k' (entries s)) as [old|] eqn:L.
   - destruct (supersedes old e tie); cbn; [|reflexivity].
@@ -140,7 +140,7 @@ Definition MetricInv (s : state) : Prop := metric s = Z.of_N (count s).
 
 Lemma step_metric s o : MetricInv s -> MetricInv (fst (step s o)).
 Proof.
-  unfold MetricInv; destruct o as [n|k e valid tie|k|]; cbn; try (intros H; exact H).
+  unfold MetricInv; destruct o as [n|k e valid tie|k| |h]; cbn; try (intros H; exact H).
   destruct valid; cbn; [|intros H; exact H].
   destruct (alookup k (entries s)) as [old|] eqn:L.
   - destruct (supersedes old e tie); cbn; [|intros H; exact H].
@@ -167,7 +167,7 @@ Definition lowers (s : state) (o : op) : bool :=
 
 Lemma step_cap s o : lowers s o = false -> CapInv s -> CapInv (fst (step s o)).
 Proof.
-  unfold CapInv; destruct o as [n|k e valid tie|k|]; cbn; try (intros _ H; exact H).
+  unfold CapInv; destruct o as [n|k e valid tie|k| |h]; cbn; try (intros _ H; exact H).
   - intros Hl _. apply N.ltb_ge in Hl. exact Hl.
   - intros _; destruct valid; cbn; [|intros H; exact H].
     destruct (alookup k (entries s)) as [old|] eqn:L.
@@ -198,7 +198,7 @@ Proof. intros H; apply cap_inv_from; [exact H|]. unfold CapInv; cbn; lia. Qed.
 Lemma insert_respects_limit s o :
   (count s < count (fst (step s o)))%N -> (count s < limit s)%N.
 Proof.
-  destruct o as [n|k e valid tie|k|]; cbn; try lia; [unfold count; cbn; lia|].
+  destruct o as [n|k e valid tie|k| |h]; cbn; try lia; [unfold count; cbn; lia|].
   destruct valid; cbn; [|lia].
   destruct (alookup k (entries s)) as [old|] eqn:L.
   - destruct (supersedes old e tie); cbn; [|lia].
@@ -214,3 +214,22 @@ Definition cap_witness : list op :=
 
 Lemma cap_inv_refuted : exists l, ~ CapInv (runs init l).
 Proof. exists cap_witness; unfold CapInv; vm_compute; intros H; now apply H. Qed.
+
+(* Chain progress is invisible to the registry: dropping every [Tip] from a history changes
+   neither the final state nor any other observation. *)
+Definition is_tip (o : op) : bool := match o with Tip _ => true | _ => false end.
+
+Lemma runs_without_tips s l : runs s (filter (fun o => negb (is_tip o)) l) = runs s l.
+Proof.
+  revert s; induction l as [|o t IH]; intros s; [reflexivity|].
+  destruct o as [n|k e valid tie|k| |h]; cbn [filter is_tip negb]; unfold runs in *; cbn [fold_left]; try apply IH.
+Qed.
+
+Lemma trace_without_tips s l :
+  trace s (filter (fun o => negb (is_tip o)) l) = filter (fun x => negb (is_tip (fst x))) (trace s l).
+Proof.
+  revert s; induction l as [|o t IH]; intros s; [reflexivity|].
+  destruct o as [n|k e valid tie|k| |h]; cbn [filter is_tip negb trace].
+  all: try (destruct (step s _) as [s' m] eqn:E; cbn [filter fst is_tip negb]; rewrite IH; reflexivity).
+  cbn [step]. cbn [filter fst is_tip negb]. apply IH.
+Qed.
